@@ -169,6 +169,20 @@ func touchesResponse(v ssa.Value, resp *types.Named, d int) bool {
 // as a []byte / string / *bytes.Buffer result in the cache data path, and is
 // never stored into a struct field.
 func rulePooledBytes(c *Ctx) {
+	n, bad := pooledBytesCore(c.P)
+	// positive control: the rule must fire on the fixture
+	if fx := c.fixture(); fx == nil {
+		c.undecided("pooled-memory-confined", "pike", "-", "positive-control fixture could not be loaded")
+		return
+	} else if _, fb := pooledBytesCore(fx); len(fb) == 0 {
+		c.undecided("pooled-memory-confined", "pike", "-", "the rule does not fire on its positive control (checker/fixture/fixturebad.PooledBytes)")
+		return
+	}
+	c.check(len(bad) == 0, "pooled-memory-confined", "pike", "-", fmt.Sprintf("%d sync.Pool.Get sites: pooled memory never escapes through a return value or a field (positive control fires)", n), strings.Join(uniq(bad), " || "), n+1)
+}
+
+func pooledBytesCore(p *Program) (int, []string) {
+	c := &Ctx{P: p}
 	n := 0
 	bad := []string{}
 	for _, f := range c.P.allFuncs {
@@ -234,12 +248,25 @@ func rulePooledBytes(c *Ctx) {
 			}
 		}
 	}
-	c.check(len(bad) == 0, "pooled-memory-confined", "pike", "-", fmt.Sprintf("%d sync.Pool.Get sites: pooled memory never escapes through a return value or a field", n), strings.Join(uniq(bad), " || "), n+1)
+	return n, bad
 }
 
 // ruleRegistriesTyped: every value taken out of a sync.Map is used through a
 // checked (comma-ok) type assertion.
 func ruleRegistriesTyped(c *Ctx) {
+	n, bad := registriesTypedCore(c.P)
+	if fx := c.fixture(); fx == nil {
+		c.undecided("registries-typed", "pike", "-", "positive-control fixture could not be loaded")
+		return
+	} else if _, fb := registriesTypedCore(fx); len(fb) == 0 {
+		c.undecided("registries-typed", "pike", "-", "the rule does not fire on its positive control (checker/fixture/fixturebad.Unchecked)")
+		return
+	}
+	c.check(len(bad) == 0, "registries-typed", "pike", "-", "values taken from sync.Map registries are used through comma-ok assertions (except store.Close on the exit path); positive control fires", strings.Join(uniq(bad), " || "), n+1)
+}
+
+func registriesTypedCore(p *Program) (int, []string) {
+	c := &Ctx{P: p}
 	n := 0
 	bad := []string{}
 	for _, f := range c.P.allFuncs {
@@ -284,5 +311,5 @@ func ruleRegistriesTyped(c *Ctx) {
 			}
 		}
 	}
-	c.check(len(bad) == 0, "registries-typed", "pike", "-", "values taken from sync.Map registries are used through comma-ok assertions (except store.Close on the exit path)", strings.Join(uniq(bad), " || "), n+1)
+	return n, bad
 }
